@@ -22,6 +22,10 @@ CHECKS = {
             "file sizes and listing order are solver variables; piece length is a configuration"),
     "C03": ("5/C03", "symbolic execution (symx) of both hybrid creators; v1 view vs v2 view vs BEP 3 reference of the listed stream; z3",
             "file sizes and listing order are solver variables"),
+    "C06": ("5/C06", "symbolic execution (symx) of all creators + MetaFile.sort_meta/write + edit_torrent; canonical-order and structure obligations on the object handed to pyben.dump; digest byte order as symbolic ranks; z3",
+            "sizes (which files have layers), digest ranks, option subsets and edit requests are solver variables / forked choices"),
+    "C07": ("5/C07", "symbolic execution (symx) of filter_empty/edit_torrent/commands.edit over opaque strings (observational abstraction) with forked field choices and base key presence; z3",
+            "field choices, key presence, emptiness and word counts of the opaque strings are forked; holds for strings of any length"),
     "C10": ("5/C10", "symbolic execution (symx): pairwise equality of creators' metafiles and of all hashers' outputs on the same symbolic payload; z3",
             "file sizes and listing order are solver variables"),
     "C04": ("5/C04-C05-C16", "symbolic execution (symx) of Checker/FeedChecker/HashChecker/FileHasher on symbolic sizes and damage positions; z3 decides 'result < 100'",
@@ -32,6 +36,8 @@ CHECKS = {
             "file sizes, truncation lengths and flip offsets are solver variables"),
     "C12": ("5/C12", "symbolic execution (symx) of normalize_piece_length/get_piece_length/MetaFile.__init__ over a symbolic integer (|x|<2^64 and up to 2^1100) and symbolic character-class strings; z3 LIA + bit decomposition + QF_FP lemmas",
             "the argument (integer, or string of <= 8 symbolic character classes) and the payload sizes are solver variables; floats havoc'd and confirmed by replay"),
+    "C17": ("5/C17", "symbolic execution (symx) of edit_torrent on the fault-injecting abstract filesystem: crash/error at a symbolic operation index; z3",
+            "the fault's operation index and the short-write length are solver variables; fault kind and request are configurations"),
     "C15": ("5/C15", "symbolic execution (symx) of TorrentFile(align=True)/Hasher vs gap arithmetic and BEP 3 reference; z3",
             "file sizes and listing order are solver variables; modulo by a concrete piece length stays linear"),
 }
